@@ -32,7 +32,7 @@ def record_done(f, started_when, time, inprogress, cancelled, failed):
 
     if f.cancelled():
         cancelled.inc()
-    elif f.exception():
+    elif f.exception() is not None:
         failed.inc()
 
 
